@@ -180,21 +180,23 @@ impl FinalityTracker {
         if *slot < self.first_unpruned_slot {
             return FinalizationEvent::default();
         }
-        let old = self
-            .status
-            .insert(*slot, FinalizationStatus::Notarized(block_hash.clone()));
-        let Some(status) = old else {
+        // NOTE: look before overwriting, a slot that is already decided must stay decided
+        let Some(status) = self.status.get(slot) else {
+            self.status
+                .insert(*slot, FinalizationStatus::Notarized(block_hash.clone()));
             return FinalizationEvent::default();
         };
 
         match status {
-            FinalizationStatus::Notarized(hash)
-            | FinalizationStatus::Finalized(hash)
-            | FinalizationStatus::ImplicitlyFinalized(hash) => {
-                assert_eq!(&hash, block_hash, "consensus safety violation");
+            FinalizationStatus::Notarized(hash) | FinalizationStatus::Finalized(hash) => {
+                assert_eq!(hash, block_hash, "consensus safety violation");
                 FinalizationEvent::default()
             }
-            FinalizationStatus::ImplicitlySkipped => FinalizationEvent::default(),
+            // slot was already decided through a finalized descendant,
+            // a (late) notarization does not change that
+            FinalizationStatus::ImplicitlyFinalized(_) | FinalizationStatus::ImplicitlySkipped => {
+                FinalizationEvent::default()
+            }
             FinalizationStatus::FinalPendingNotar => {
                 let mut event = FinalizationEvent::default();
                 self.status
@@ -216,10 +218,10 @@ impl FinalityTracker {
         if slot < self.first_unpruned_slot {
             return FinalizationEvent::default();
         }
-        let old = self
-            .status
-            .insert(slot, FinalizationStatus::FinalPendingNotar);
-        let Some(status) = old else {
+        // NOTE: look before overwriting, a slot that is already decided must stay decided
+        let Some(status) = self.status.get(&slot).cloned() else {
+            self.status
+                .insert(slot, FinalizationStatus::FinalPendingNotar);
             return FinalizationEvent::default();
         };
 
